@@ -170,7 +170,7 @@ func compareWire(m *PacketModel, w *rtpwire.Packet, canonical bool) error {
 	return nil
 }
 
-const ruleC01 = "rapid draws well-formed Packet models (version 0-3, PT 0-127, 0-15 CSRCs, no/one-byte/two-byte/legacy extension built with SetExtension, payload 0-1500 B, padding 0 or 1-255); oracle: MarshalSize/Marshal/Unmarshal round trip, independent RFC parser on the encoder output, Header.Marshal/Unmarshal; non-trivial = has extension, CSRC, padding or an empty payload; distinct = FNV-64 of the JSON case"
+const ruleC01 = "rapid draws well-formed Packet models (version 0-3, marker, PT 0-127, sequence/timestamp/SSRC biased to 0, 1 and the maxima, 0-15 CSRCs, no/one-byte/two-byte/legacy extension built with SetExtension incl. empty two-byte values, 16-byte one-byte values, ids 1-14 / 1-255, a two-byte block filled to 64 KiB in one case of 150 and legacy values of up to 65535 words, payload 0-1500 B or (one case in 200) 64-70 KiB, nil or empty payload, padding 0 or 1-255); oracle: MarshalSize = RFC size of the model, Marshal, a second Marshal after the caller overwrote the first result, the independent RFC 3550/8285 parser reads the model back from the encoder output, Unmarshal into a fresh Packet and into a Packet that decoded another packet before (also from one shared receive buffer) gives back every field, Header.Marshal/Unmarshal likewise; non-trivial = has extension, CSRC, padding or an empty payload; distinct = FNV-64 of the JSON case"
 
 func TestC01(t *testing.T) {
 	r := begin(t, "C01", "exploration", ruleC01)
